@@ -6,11 +6,15 @@ from . import core
 
 
 def run():
-    ok, log = core.build_coq(keep_going=False)
+    ok, log = core.build_coq(keep_going=True)
     if not ok:
+        # a broken proof is reported by the check of the property it belongs to; setup only needs
+        # the shared base to exist
         print(log[-4000:])
-        print("ERROR: Coq build failed")
-        return 2
+        print("WARNING: some Coq files did not build (reported by the owning property's check)")
+        if not core.vo_ok("Dispatch"):
+            print("ERROR: Coq build failed")
+            return 2
     import importlib
     for i in range(1, 21):
         pid = "c%02d" % i
@@ -21,12 +25,15 @@ def run():
         prop = mod.PROP
         if getattr(prop, "not_applicable", None):
             continue
-        core.build_model(prop)
-        for tag, pkg in prop.packages.items():
-            core.go_test_bin(prop, pkg)
-        if hasattr(prop, "setup"):
-            prop.setup()
-        print("built model + test binaries for", prop.id)
+        try:
+            core.build_model(prop)
+            for tag, pkg in prop.packages.items():
+                core.go_test_bin(prop, pkg)
+            if hasattr(prop, "setup"):
+                prop.setup()
+            print("built model + test binaries for", prop.id)
+        except core.HarnessError as ex:
+            print("WARNING: %s: %s" % (prop.id, str(ex)[:2000]))
     print("setup ok")
     return 0
 
